@@ -93,6 +93,7 @@ type opRec struct {
 	invokeStep  int
 	returnStep  int
 	err         bool
+	flushSeqs   []uint32 // Close: sequences of the groups delivered by this call, in delivery order
 }
 
 // Run is one executed schedule.
@@ -211,6 +212,10 @@ func (s *sched) ReassemblyComplete(msgs []*auparse.AuditMessage) {
 		if mi.delivered > 1 {
 			s.fail("delivered-twice", "message #%d (seq=%d, pushed by g%d) delivered %d times", mi.id, mi.seq, mi.worker, mi.delivered)
 		}
+	}
+	// a Close in progress on this worker: remember the order of its flush
+	if op := s.curOp[s.current]; op != nil && op.kind == Close && op.returnStep < 0 && s.cbDepth == 0 && len(msgs) > 0 && msgs[0] != nil {
+		op.flushSeqs = append(op.flushSeqs, msgs[0].Sequence)
 	}
 	// messages pushed by the same goroutine must keep their push order inside the group
 	last := map[int]int{}
@@ -454,6 +459,16 @@ func Execute(p *Program, prefix []int, chooser func(depth, n int) int) *Run {
 		}
 		if o.kind == Maintain && !o.err && s.closeInvokedStep >= 0 && o.invokeStep > closeReturnStep(s) && closeReturnStep(s) >= 0 {
 			s.fail("maintain-ok-after-close", "Maintain invoked after Close had returned succeeded")
+		}
+	}
+	// "Close delivers every buffered event once, in order": whatever the interleaving, the groups one Close
+	// call delivers come in ascending sequence order (the program's sequences are small: no roll-over)
+	for _, o := range s.ops {
+		for i := 1; i < len(o.flushSeqs); i++ {
+			if o.flushSeqs[i] < o.flushSeqs[i-1] {
+				s.fail("close-flush-out-of-order", "the Close of g%d flushed sequences %v: not in ascending order", o.worker, o.flushSeqs)
+				break
+			}
 		}
 	}
 	if closes > 0 && closeOK != 1 {
